@@ -426,7 +426,7 @@ func oracleC08(r *Result) ([]Violation, bool) {
 			last[e.I] = "D"
 		case "q":
 			for _, sn := range e.Snap {
-				if sn.InStop || sn.Cut || sn.Fine || sn.Blocked { // Blocked: a transition is in progress under the election mutex (slow application callback)
+				if sn.InStop || sn.StopFailed || sn.Cut || sn.Fine || sn.Blocked { // StopFailed: an incomplete shutdown (the statement lists the successful StopWithContext only); Blocked: a transition is in progress under the election mutex (slow application callback)
 					continue
 				}
 				bal := sn.NProm - sn.NDem
